@@ -228,6 +228,25 @@ func genCase(r *vh.Rand, thorough bool) string {
 					emit("CC %d", k)
 				}
 			}
+		case x < 146:
+			// read pipeline as node.handleReadIndex runs it: batch 1 taken and added, batch 2
+			// taken and added (the queue has flipped twice), then further reads that land in
+			// the buffer batch 1 was taken from - all before any batch is confirmed
+			for b := 0; b < 2+r.Intn(2); b++ {
+				for k := 0; k < 1+r.Intn(3); k++ {
+					to := []uint64{2, 3, 5, 100}[r.Intn(4)]
+					emit("R %d %d", to, r.Intn(4))
+					nreq++
+				}
+				emit("TR")
+				nctx++
+				ctxs = append(ctxs, gctx{nctx, tick + 30})
+				emit("AR %d %d", nctx, tick+30)
+			}
+			for k := 0; k < 1+r.Intn(3); k++ {
+				emit("R %d %d", []uint64{2, 3, 5, 100}[r.Intn(4)], r.Intn(4))
+				nreq++
+			}
 		default:
 			// a client that polls and releases right away
 			i := r.Intn(nreq + 1)
